@@ -174,12 +174,14 @@ def subset (a b : List String) : Bool := a.all b.contains
 
 /-- the lifecycle of the property text, read as an order: a status may only move forward along
 waiting → preparing → submitted → running → succeeded | failed, with submit-failed reachable from
-waiting/preparing/submitted only and expired from waiting only (skipping stages forward is allowed:
-"started before submitted" is one of the event orders the property quantifies over). -/
+preparing/submitted only and expired from waiting only (skipping stages forward is allowed once a job
+exists: "started before submitted" is one of the event orders the property quantifies over).  A waiting
+task has no job: it leaves waiting only by job preparation or expiry — in particular a task waiting for
+its automatic retry is not moved by messages or poll results of the job that failed. -/
 def fwdS (a b : String) : Bool :=
   a == b ||
   (match a with
-   | "waiting" => ["preparing", "submitted", "running", "succeeded", "failed", "submit-failed", "expired"].contains b
+   | "waiting" => ["preparing", "expired"].contains b
    | "preparing" => ["submitted", "running", "succeeded", "failed", "submit-failed"].contains b
    | "submitted" => ["running", "succeeded", "failed", "submit-failed"].contains b
    | "running" => ["succeeded", "failed"].contains b
